@@ -6,10 +6,10 @@ from props import common
 SPEC = vlib.os.path.join(vlib.VERIF, "specs", "Relay")
 # real steps that happen by themselves as soon as they can and whose effect other steps can see: in a replayable
 # behaviour they are taken immediately when enabled
-URGENT = {"RecvLoopEnd", "DlTimeout", "Cleanup", "UpClosed", "PackRes", "InitFail"}
+URGENT = {"RecvLoopEnd", "DlTimeout", "Cleanup", "UpClosed", "PackRes", "InitFail", "DlRead"}
 
 BASE = dict(Sess='{"s1"}', Targets='{"a","ip","rej"}', Domains='{"a"}', Rejected='{"rej"}', Unresolvable='{}', ChanCap=2, MaxSend=2, MaxReply=1, MaxTimer=0,
-            SharedPacker="FALSE", RearmGuard="TRUE", Keyed='"addr"', EMIT="", PROPS="")
+            SharedPacker="FALSE", RearmGuard="TRUE", Keyed='"addr"', Batch="FALSE", EMIT="", PROPS="")
 
 
 def model(consts, props=True, edges=False, timeout=1800, workers=16):
